@@ -62,8 +62,74 @@ type Worker struct {
 	model      refz80.Model
 	res        StepResult
 	envReq     *z80.Interrupt
+	// frame: the registers the CPU shows to its devices during each callback (enableFrame)
+	frame []frameSnap
 	// scratch
 	diff []string
+}
+
+// frameSnap is what a device callback saw in the CPU's exported registers.
+type frameSnap struct {
+	S      refz80.State
+	PortIn bool
+}
+
+// enableFrame makes the worker record the CPU's exported registers at every memory and port callback.
+// Devices are entitled to look (a debugger's memory watch, a port decoder that wants the upper address
+// byte), so an instruction must not park temporary values in registers it does not use.
+func (w *Worker) enableFrame() {
+	w.imem.Hook = func(write bool, addr uint16) { w.frame = append(w.frame, frameSnap{S: fromCPU(&w.cpu)}) }
+	w.iio.Hook = func(out bool, port uint8) { w.frame = append(w.frame, frameSnap{S: fromCPU(&w.cpu), PortIn: !out}) }
+}
+
+// frameDiff: a register the complete instruction leaves unchanged (per the reference) holds that value
+// at every callback; the block input instructions present the not yet decremented B to the device
+// (Z80 CPU User Manual, INI: "register B ... placed on the top half of the address bus at this time.
+// ... then ... the byte counter is decremented").
+func (w *Worker) frameDiff(cs *Case, res *StepResult) []string {
+	if res.Panic != nil || res.RefPanic != nil || res.Out.Inst.Kind == refz80.KInvalid {
+		return nil
+	}
+	var d []string
+	pre, exp := &cs.S, &res.Exp
+	for i := range w.frame {
+		g := &w.frame[i].S
+		chk8 := func(n string, p, e, v uint8) {
+			if p == e && v != p {
+				d = append(d, fmt.Sprintf("at callback %d of the Step register %s reads %02X; the instruction does not use it (before and after: %02X)", i, n, v, p))
+			}
+		}
+		chk16 := func(n string, p, e, v uint16) {
+			if p == e && v != p {
+				d = append(d, fmt.Sprintf("at callback %d of the Step register %s reads %04X; the instruction does not use it (before and after: %04X)", i, n, v, p))
+			}
+		}
+		chk8("A", pre.A, exp.A, g.A)
+		chk8("B", pre.B, exp.B, g.B)
+		chk8("C", pre.C, exp.C, g.C)
+		chk8("D", pre.D, exp.D, g.D)
+		chk8("E", pre.E, exp.E, g.E)
+		chk8("H", pre.H, exp.H, g.H)
+		chk8("L", pre.L, exp.L, g.L)
+		chk8("A'", pre.A2, exp.A2, g.A2)
+		chk8("F'", pre.F2, exp.F2, g.F2)
+		chk8("B'", pre.B2, exp.B2, g.B2)
+		chk8("C'", pre.C2, exp.C2, g.C2)
+		chk8("D'", pre.D2, exp.D2, g.D2)
+		chk8("E'", pre.E2, exp.E2, g.E2)
+		chk8("H'", pre.H2, exp.H2, g.H2)
+		chk8("L'", pre.L2, exp.L2, g.L2)
+		chk8("I", pre.I, exp.I, g.I)
+		chk16("IX", pre.IX, exp.IX, g.IX)
+		chk16("IY", pre.IY, exp.IY, g.IY)
+		if w.frame[i].PortIn && res.Out.Inst.Kind == refz80.KBlkIn && g.B != pre.B {
+			d = append(d, fmt.Sprintf("during the port read of the block input instruction the device sees B=%02X; the Z80 presents the not yet decremented B=%02X", g.B, pre.B))
+		}
+		if len(d) > 0 {
+			break
+		}
+	}
+	return d
 }
 
 func newWorker(bg *[65536]uint8) *Worker {
@@ -259,6 +325,7 @@ func (w *Worker) setup(cs *Case) {
 	w.iio.X, w.iio.Y, w.iio.Fixed = cs.IOX, cs.IOY, cs.IOFixed
 	w.rio.X, w.rio.Y, w.rio.Fixed = cs.IOX, cs.IOY, cs.IOFixed
 	w.retn.n, w.reti.n = 0, 0
+	w.frame = w.frame[:0]
 	toCPU(&cs.S, &w.cpu)
 	w.cpu.Interrupt = nil
 	w.cpu.BreakPoints = nil
